@@ -82,16 +82,29 @@ def prepare_scratch(unit, repo, scratch):
                 sp = os.path.join(repo, it['file'])
                 src = open(sp).read()
                 km = lift.mask(src)
-                kw = {'fn': r'\bfn\s+', 'enum': r'\benum\s+', 'struct': r'\bstruct\s+'}[it['kind']]
+                kw = {'fn': r'\bfn\s+', 'enum': r'\benum\s+', 'struct': r'\bstruct\s+', 'tstruct': r'\bstruct\s+'}[it['kind']]
                 ms = [m for m in lift.code_finditer(src, km, kw + re.escape(it['name']) + r'\b')]
                 if len(ms) != 1:
                     raise lift.LiftError('%s: item %s %s found %d times in %s' % (unit, it['kind'], it['name'], len(ms), it['file']))
                 a = ms[0].start()
                 ls = src.rfind('\n', 0, a) + 1
-                b = src.index('{', a)
-                while km[b] != lift.CODE:
-                    b = src.index('{', b + 1)
-                e = lift.match_close(src, km, b)
+                # include the attribute / doc-comment lines directly above the item
+                while ls > 0:
+                    pl = src.rfind('\n', 0, ls - 1) + 1
+                    prev = src[pl:ls].strip()
+                    if prev.startswith('#[') or prev.startswith('///'):
+                        ls = pl
+                    else:
+                        break
+                if it['kind'] == 'tstruct':
+                    e = a
+                    while not (src[e] == ';' and km[e] == lift.CODE):
+                        e += 1
+                else:
+                    b = src.index('{', a)
+                    while km[b] != lift.CODE:
+                        b = src.index('{', b + 1)
+                    e = lift.match_close(src, km, b)
                 text = src[ls:e + 1]
                 prov['contracts'].append({'file': it['file'], 'item': '%s %s' % (it['kind'], it['name']),
                                           'sha256': hashlib.sha256(text.encode()).hexdigest(), 'lines': '%d-%d' % (src.count('\n', 0, ls) + 1, src.count('\n', 0, e) + 1)})
